@@ -19,8 +19,8 @@ class ZL(ASTNode):  # leaf
     v: int = 0
 
 
-@dataclass(frozen=True)
-class ZK(ASTNode):  # second leaf class, same fields, other name
+@dataclass(frozen=True, slots=True)
+class ZK(ASTNode):  # second leaf class, same fields, other name; slotted (dataclass creates such a class twice)
     v: int = 0
 
 
@@ -45,8 +45,8 @@ class ZO(ASTNode):  # optional single child
     c: ASTNode | None = None
 
 
-@dataclass(frozen=True)
-class ZV(ASTNode):  # variadic tuple
+@dataclass(frozen=True, slots=True)
+class ZV(ASTNode):  # variadic tuple; slotted
     items: tuple[ASTNode, ...] = ()
 
 
@@ -60,6 +60,13 @@ class ZM(ASTNode):  # mixed: optional, tuple, union-typed optional
     a: ASTNode | None = None
     items: tuple[ASTNode, ...] = ()
     b: ZL | ZV | None = None
+
+
+@dataclass(frozen=True)
+class ZN(ASTNode):  # the same child fields as ZM (names and kinds), declared in another order
+    b: ZL | ZV | None = None
+    items: tuple[ASTNode, ...] = ()
+    a: ASTNode | None = None
 
 
 @dataclass(frozen=True)
@@ -81,6 +88,7 @@ _SPECS = {
     "ZX": C("ZX", ZX, [F("pair", FIX, (LEAFY, ANY))]),
     "ZM": C("ZM", ZM, [F("a", OPT, ANY), F("items", VAR, ANY, maxlen=2), F("b", OPT, {"ZL", "ZS", "ZV"})]),
     "ZD": C("ZD", ZD, [F("c", OPT, ANY), F("more", VAR, ANY, maxlen=2)], bases=("ZO",)),
+    "ZN": C("ZN", ZN, [F("b", OPT, {"ZL", "ZS", "ZV"}), F("items", VAR, ANY, maxlen=2), F("a", OPT, ANY)]),
 }
 
 
@@ -99,7 +107,7 @@ def universe(names, name=None, props=None) -> Universe:
 
 
 # the traversal universe of C05/C06 (8 field shapes + falsy leaf)
-U_TRAV = ["ZL", "ZF", "ZU", "ZO", "ZV", "ZX", "ZM", "ZD"]
+U_TRAV = ["ZL", "ZF", "ZU", "ZO", "ZV", "ZX", "ZM", "ZD", "ZN"]
 # the same without the falsy leaf
 U_PLAIN = ["ZL", "ZS", "ZU", "ZO", "ZV", "ZX", "ZM", "ZD"]
 
